@@ -16,7 +16,7 @@
      NV.CramRec.Container  build_container bookkeeping (io/writer/container.rs), Block::size and
                            write_block (io/writer/container/block.rs), record counters (io/writer.rs) *)
 From Coq Require Import List NArith ZArith.
-From NV Require Import CramRec.Features CramRec.FeaturesProofs CramRec.FeaturesTotal CramRec.Container CramRec.ContainerProofs CramRec.ContainerItf8 CramRec.Mates CramRec.MatesProofs CramRec.MatesChain CramRec.MatesWriter CramRec.MatesLoop CramRec.MatesBytes CramRec.MatesBytesProofs CramRec.SliceHeader CramRec.SliceHeaderProofs.
+From NV Require Import CramRec.Features CramRec.FeaturesProofs CramRec.FeaturesTotal CramRec.FeaturesMissing CramRec.Container CramRec.ContainerProofs CramRec.ContainerItf8 CramRec.Mates CramRec.MatesProofs CramRec.MatesChain CramRec.MatesWriter CramRec.MatesLoop CramRec.MatesBytes CramRec.MatesBytesProofs CramRec.SliceHeader CramRec.SliceHeaderProofs.
 Import ListNotations.
 Open Scope N_scope.
 
@@ -59,25 +59,83 @@ Theorem c07_features_roundtrip_partial :
 Proof. exact features_roundtrip. Qed.
 Print Assumptions c07_features_roundtrip_partial.
 
-(* the composed function that the correspondence check runs against the real writer+reader *)
+(* the composed function that the correspondence check runs against the real writer+reader
+   ([roundtrip]: Record::try_from_alignment_record of /repo 405565a for a record that is not
+   flagged unmapped and has a reference id and a start, then the reader): a record with bases
+   and a CIGAR that fits them, inside the reference, with quality scores missing or as long as
+   the read *)
 Theorem c07_record_roundtrip_partial :
   forall sm refseq seq quals ops start,
     valid_sm sm -> Forall (fun o => 0 < snd o) ops -> read_len ops = len seq ->
-    1 <= start -> start + ref_len ops <= len refseq + 1 ->
+    seq <> [] -> (quals = [] \/ len quals = len seq) ->
+    1 <= start -> start <= len refseq -> start + ref_len ops <= len refseq + 1 ->
     cigar_to_features true refseq seq (writer_quals seq quals) ops start <> None ->
     exists s, roundtrip sm refseq seq quals ops start = ROk (simplify (norm_ops ops)) s
               /\ eq_nocase_list s seq = true.
 Proof. exact roundtrip_ok. Qed.
 Print Assumptions c07_record_roundtrip_partial.
 
+(* SEQ `*` with a CIGAR (/repo 0049c20; before: InvalidInput, before 9757af4 a panic): accepted
+   whenever the start lies inside the reference (nothing else is looked up: a match may even run
+   past the reference end - the slice span is clamped), stored with CF
+   SEQUENCE_IS_MISSING, the read length of the CIGAR and features made from the CIGAR alone, and
+   read back with SEQ `*` and exactly the input CIGAR (=/X as M, adjacent equal kinds merged) *)
+Theorem c07_missing_sequence_roundtrip : forall sm refseq quals ops start,
+  ops <> [] -> Forall (fun o => 0 < snd o) ops -> (quals = [] \/ len quals = read_len ops) ->
+  start <= len refseq ->
+  roundtrip sm refseq [] quals ops start = ROk (simplify (norm_ops ops)) [].
+Proof. exact missing_sequence_roundtrip. Qed.
+Print Assumptions c07_missing_sequence_roundtrip.
+
+(* THE RESIDUAL CLASS cram-missing-cigar-with-bases-reads-back-as-soft-clip (/repo fe42e80): a
+   record that is not flagged unmapped, has bases and CIGAR `*` stores the whole read as one soft
+   clip; it reads back with exactly its bases (case included; before fe42e80 they were replaced
+   by reference bases) and the CIGAR <len>S instead of `*` - nothing else of the pair
+   (CIGAR, bases) changes *)
+Theorem c07_missing_cigar_reads_back_as_soft_clip : forall sm refseq seq quals start,
+  seq <> [] -> (quals = [] \/ len quals = len seq) -> 1 <= start -> start <= len refseq ->
+  roundtrip sm refseq seq quals [] start = ROk [(KS, len seq)] seq.
+Proof. exact missing_cigar_reads_back_as_soft_clip. Qed.
+Print Assumptions c07_missing_cigar_reads_back_as_soft_clip.
+
+(* quality scores that are present but not as long as the read are refused (/repo 8d67724): for
+   the composed function, and for every kind of record (any flags / placement) in convert_core *)
+Theorem c07_quality_length_mismatch_is_error : forall sm refseq seq quals ops start,
+  quals <> [] -> len quals <> record_read_length seq ops ->
+  roundtrip sm refseq seq quals ops start = RInvalidInput.
+Proof. exact quality_length_mismatch_is_error. Qed.
+Print Assumptions c07_quality_length_mismatch_is_error.
+
+Theorem c07_convert_quality_length_mismatch_is_error : forall u placed seq quals ops,
+  quals <> [] -> len quals <> core_read_length u placed seq ops ->
+  convert_core u placed seq quals ops = None.
+Proof. exact convert_core_quality_mismatch. Qed.
+Print Assumptions c07_convert_quality_length_mismatch_is_error.
+
+(* read length, SEQUENCE_IS_MISSING and stored quality scores of every accepted record: the read
+   length is |SEQ|, or the CIGAR's read length when SEQ is `*` and the record is aligned (not
+   flagged unmapped, reference id, start, CIGAR); missing quality scores become that many 0xff *)
+Theorem c07_convert_shape : forall u placed seq quals ops rl ms q ws,
+  convert_core u placed seq quals ops = Some (rl, ms, q, ws) ->
+  rl = core_read_length u placed seq ops /\
+  ms = (match seq with [] => true | _ => false end) /\
+  q = record_quals rl quals /\ len q = rl.
+Proof. exact convert_core_shape. Qed.
+Print Assumptions c07_convert_shape.
+
 (* The writer's answer for a malformed record is an error, not a panic (repaired defects
    cram-mapped-read-missing-qualities-panic, cram-mapped-read-missing-bases-panic; /repo 9757af4):
-   in the model the composed writer+reader function answers RInvalidInput exactly when
-   cigar_to_features has no result, ... *)
+   the composed function answers RInvalidInput exactly when the quality scores are present but
+   not as long as the read, or the start lies beyond the reference end (the slice's reference MD5
+   cannot be computed), or the record has both a CIGAR and bases and cigar_to_features rejects
+   them - otherwise never for SEQ `*`, never for CIGAR `*` ... *)
 Theorem c07_roundtrip_invalid_input_iff :
   forall sm refseq seq quals ops start,
+    let rl := record_read_length seq ops in
     roundtrip sm refseq seq quals ops start = RInvalidInput <->
-    cigar_to_features true refseq seq (writer_quals seq quals) ops start = None.
+    ((quals <> [] /\ len quals <> rl) \/ len refseq < start \/
+     (ops <> [] /\ seq <> [] /\
+      cigar_to_features true refseq seq (record_quals rl quals) ops start = None)).
 Proof. exact roundtrip_invalid_input. Qed.
 Print Assumptions c07_roundtrip_invalid_input_iff.
 
@@ -93,8 +151,8 @@ Proof. exact cigar_to_features_total. Qed.
 Print Assumptions c07_cigar_to_features_total.
 
 (* ... and always happens (an error where the code used to panic) when a read-consuming op
-   reaches past the end of the sequence (in particular SEQ `*` with a read-consuming CIGAR: the
-   repaired class cram-mapped-read-missing-bases-panic), or a match reaches past the reference end *)
+   reaches past the end of a sequence that is present (cigar_to_features with bases; SEQ `*` no
+   longer comes here: c07_missing_sequence_roundtrip), or a match reaches past the reference end *)
 Theorem c07_short_sequence_is_error :
   forall qa refseq seq quals k n rest rp dp,
     consumes_read k = true -> len seq + 1 < dp + n ->
@@ -138,6 +196,17 @@ Proof. vm_compute. repeat split; reflexivity. Qed.
 Example c07_missing_qualities_now_roundtrip :
   roundtrip default_sm [65;67;71;84] [65;67] [] [(KM, 1); (KI, 1)] 1 = ROk [(KM, 1); (KI, 1)] [65;67].
 Proof. vm_compute. reflexivity. Qed.
+
+(* SEQ `*` with a CIGAR round-trips; bases with CIGAR `*` come back as one soft clip; quality
+   scores of the wrong length are refused *)
+Example c07_missing_sequence_and_cigar_witnesses :
+  roundtrip default_sm [65;67;71;84;65;67] [] [] [(KS, 2); (KEq, 2); (KI, 1); (KX, 1); (KD, 1)] 2
+    = ROk [(KS, 2); (KM, 2); (KI, 1); (KM, 1); (KD, 1)] [] /\
+  roundtrip default_sm [65;67;71;84] [103;71;110] [] [] 4 = ROk [(KS, 3)] [103;71;110] /\
+  roundtrip default_sm [65;67;71;84] [65;67] [30] [(KM, 2)] 1 = RInvalidInput /\
+  roundtrip default_sm [65;67;71;84] [] [30;30;30] [(KM, 2)] 1 = RInvalidInput /\
+  roundtrip default_sm [65;67;71;84] [] [] [(KM, 2)] 5 = RInvalidInput.
+Proof. vm_compute. repeat split; reflexivity. Qed.
 
 (* a CIGAR longer than the sequence, and a read running past the reference end: InvalidInput *)
 Example c07_invalid_input_witnesses :
@@ -654,7 +723,9 @@ Print Assumptions c07_shdr_stream_one_slice_per_container.
 Theorem c07_shdr_converted_records_wf :
   forall refsq s r,
   (forall st, sr_start s = Some st -> 1 <= st) -> sh_convert refsq s = SOk r ->
-  hrec_wf r /\ hr_ref r = sr_ref s /\ hr_start r = sr_start s /\ hr_rl r = len (sr_seq s).
+  hrec_wf r /\ hr_ref r = sr_ref s /\ hr_start r = sr_start s /\
+  (sr_seq s <> [] -> hr_rl r = len (sr_seq s) /\ hr_missing r = false) /\
+  (sr_seq s = [] -> hr_missing r = true).
 Proof. exact sh_convert_wf. Qed.
 Print Assumptions c07_shdr_converted_records_wf.
 
@@ -679,10 +750,10 @@ Print Assumptions c07_shdr_converted_span_is_reference_length.
 Definition shdr_ex_refsq : list (N * list N) :=
   [(10, [65;67;71;84;65;67;71;84;65;67]); (4, [71;71;71;71])].
 (* 3M2D1M at 2 (span 6: 2..7) and an unmapped read of 5 bases placed at 8 (8..12, clamped to 10) *)
-Definition shdr_ex_a : srec := srec_of (Some 0) (Some 2) [(KM, 3); (KD, 2); (KM, 1)] [67;71;84;71] [30;30;30;30].
-Definition shdr_ex_b : srec := srec_of (Some 0) (Some 8) [] [65;65;65;65;65] [30;30;30;30;30].
-Definition shdr_ex_u : srec := srec_of None None [] [65;67] [30;30].
-Definition shdr_ex_nostart : srec := srec_of (Some 0) None [] [65;67] [30;30].
+Definition shdr_ex_a : srec := srec_of false (Some 0) (Some 2) [(KM, 3); (KD, 2); (KM, 1)] [67;71;84;71] [30;30;30;30].
+Definition shdr_ex_b : srec := srec_of true (Some 0) (Some 8) [] [65;65;65;65;65] [30;30;30;30;30].
+Definition shdr_ex_u : srec := srec_of true None None [] [65;67] [30;30].
+Definition shdr_ex_nostart : srec := srec_of true (Some 0) None [] [65;67] [30;30].
 
 Example c07_shdr_ex_stream :
   shdr_rows shdr_ex_refsq 2 [shdr_ex_a; shdr_ex_b; shdr_ex_u] =
@@ -710,7 +781,7 @@ Example c07_shdr_ex_many :
 Proof. vm_compute. reflexivity. Qed.
 
 Example c07_shdr_ex_rejected :
-  shdr_rows shdr_ex_refsq 3 [srec_of (Some 1) (Some 5) [] [65] [30]] = SErr ESpanOutside.
+  shdr_rows shdr_ex_refsq 3 [srec_of true (Some 1) (Some 5) [] [65] [30]] = SErr ESpanOutside.
 Proof. vm_compute. reflexivity. Qed.
 
 (* a record with a reference id but no start makes the slice multi-reference wherever it stands
